@@ -1,7 +1,7 @@
 """C14 — safe file replacement: Lean action model `Safe.writeFile` / `Safe.File.*` (Model/SafeFile.lean), theorems
 Props/C14.lean.  Three correspondence streams tie the action model to the code:
   api    in-process histories of safe.File (Create/Write/Commit/Close/embedded Close in any order)
-  wf     in-process safe.WriteFileWithMode with callback faults, a failing rename (destination is a directory), a failing
+  wf     in-process safe.WriteFileWithMode with callback faults (returned error or panic, recovered by the harness), a failing rename (destination is a directory), a failing
          write(2) at every index (RLIMIT_FSIZE set to the file size at which that call starts, SIGXFSZ ignored) under the
          three callback behaviours {returns the Write error, swallows it and stops, swallows it and keeps writing},
          observations from inside the callback and a concurrent reader
